@@ -264,3 +264,103 @@ def check_spacing_arms(ctx: Ctx) -> None:
         ctx.ob("R-DECISION-spacing", f"{cbt.qual} :: inspects every item's block count", ok and bool(false_rets or agg_rets),
                "a list can be tight only if each item holds a single block: the helper must loop over all items and compare len(item.children)",
                where(cbt, cbt.node))
+
+
+def check_item_gap_flag(ctx: Ctx) -> None:
+    """The list renderer decides the blank line between two items from a flag that blocks set while they render (a heading
+    says "I already emitted my blank line"). A block that renders its children inside `container(...)` (quote, alert, list
+    item, footnote definition) must decide that flag itself after the container is left: otherwise what the *last child*
+    happened to set leaks out, and the spacing after the item depends on what the quote ends with."""
+    repo, prog = ctx.repo, ctx.prog
+    rm = get_model(ctx)
+    lm = rm.methods.get("List")
+    if lm is None:
+        raise AnalysisError("list renderer not found")
+    lflow = prog.flow(lm)
+    selfname = lm.params[0]
+    # the flag: `if self.X: self.X = False` (consumed) in the list renderer or the helpers only it calls
+    flag = None
+    from .common import exclusive_helpers
+
+    cands_f = [lm] + [repo.functions[q] for q in sorted(exclusive_helpers(prog, lm)) if q in repo.functions]
+    li = rm.methods.get("ListItem")
+    if li is not None:
+        cands_f += [li] + [repo.functions[q] for q in sorted(exclusive_helpers(prog, li)) if q in repo.functions]  # (the per-item renderer)
+    for f in cands_f:
+        if isinstance(f.node, ast.Lambda) or not f.params:
+            continue
+        fl = prog.flow(f)
+        for n in fl.cfg.nodes:
+            if n.kind == "test" and isinstance(n.ast, ast.Attribute) and isinstance(n.ast.value, ast.Name) and n.ast.value.id == f.params[0]:
+                for s_, lab in n.succ:
+                    if lab == "T" and s_.kind == "stmt" and isinstance(s_.ast, ast.Assign) and norm(s_.ast.targets[0]) == norm(n.ast) \
+                            and isinstance(s_.ast.value, ast.Constant) and s_.ast.value.value is False:
+                        flag = n.ast.attr
+    if flag is None:
+        ctx.note("item_gap_flag", "no consumed flag found in the list renderer: rule not applicable")
+        return
+    ctx.note("item_gap_flag", flag)
+
+    def assigns_flag(f: FuncInfo, n: Node) -> bool:
+        return n.kind == "stmt" and isinstance(n.ast, ast.Assign) and any(isinstance(t, ast.Attribute) and t.attr == flag and isinstance(t.value, ast.Name)
+                                                                      and t.value.id == f.params[0] for t in n.ast.targets)
+
+    def uses_container(f: FuncInfo) -> list[Node]:
+        fl = prog.flow(f)
+        return [n for n in fl.cfg.nodes if n.kind in ("with", "withitem", "stmt") and isinstance(n.ast, (ast.With, ast.withitem, ast.Call, ast.Expr))
+                and any(isinstance(c, ast.Call) and isinstance(c.func, ast.Attribute) and c.func.attr == "container" for c in ast.walk(n.ast) if True)
+                and isinstance(getattr(n, "owner", None) or n.ast, (ast.With, ast.withitem))]
+
+    n_cont = 0
+    seen: set[str] = set()
+    for kind, m in sorted(rm.methods.items(), key=lambda kv: kv[0]):
+        if m is None or m.qual in seen or m.cls is None or isinstance(m.node, ast.Lambda):
+            continue
+        seen.add(m.qual)
+        fl = prog.flow(m)
+        anchors_: list[Node] = []
+        helper_assigns: set[Node] = set()
+        for n in fl.cfg.nodes:
+            # a `with self.container(...)` of its own
+            if isinstance(n.ast, ast.With) or isinstance(getattr(n, "owner", None), ast.With):
+                w = n.ast if isinstance(n.ast, ast.With) else n.owner
+                if any(isinstance(c, ast.Call) and isinstance(c.func, ast.Attribute) and c.func.attr == "container" for it in w.items for c in ast.walk(it.context_expr)) \
+                        and any(isinstance(c, ast.Call) and isinstance(c.func, ast.Attribute) and c.func.attr == "rstrip" for c in ast.walk(w)):
+                    # (a container that strips the trailing newlines of what its children rendered: a heading's own blank line is
+                    # gone with them, so "the blank line is already there" no longer holds)
+                    anchors_.append(n)
+            for c in fl.calls_in(n):
+                t = prog.resolve_call(m, c)
+                if isinstance(t, list) and len(t) == 1 and t[0].cls is m.cls and t[0].name.startswith("_") and not isinstance(t[0].node, ast.Lambda):
+                    h = t[0]
+                    hsrc = [x for x in ast.walk(h.node) if isinstance(x, ast.With) and any(
+                        isinstance(c2, ast.Call) and isinstance(c2.func, ast.Attribute) and c2.func.attr == "container" for it in x.items for c2 in ast.walk(it.context_expr))
+                        and any(isinstance(c2, ast.Call) and isinstance(c2.func, ast.Attribute) and c2.func.attr == "rstrip" for c2 in ast.walk(x))]
+                    if hsrc:
+                        anchors_.append(n)
+                        # does the helper itself decide the flag after its container (a top-level statement after the with)?
+                        body = h.node.body
+                        for i, st in enumerate(body):
+                            if st in hsrc or any(x in hsrc for x in ast.walk(st)):
+                                if any(isinstance(y, ast.Assign) and any(isinstance(tg, ast.Attribute) and tg.attr == flag for tg in y.targets) for later in body[i + 1:] for y in ast.walk(later)):
+                                    helper_assigns.add(n)
+        if not anchors_:
+            continue
+        n_cont += 1
+        setters = {n for n in fl.cfg.nodes if assigns_flag(m, n)} | helper_assigns
+        bad = None
+        for a in anchors_:
+            if a in helper_assigns:
+                continue
+            for r in list(fl.cfg.returns()) + [fl.cfg.exit]:
+                p = fl.cfg.path_avoiding(a, r, setters)
+                if p is not None and r is not a:
+                    bad = (a, r)
+                    break
+            if bad:
+                break
+        ctx.ob("R-STATE", f"{m.qual} :: decides the item-gap flag after its container", bad is None,
+               f"`self.{flag}` is consumed by the list renderer; a block that renders children inside container(...) must set it after the "
+               "container is left, or whatever its last child set leaks out (the blank line after a list item then depends on what a "
+               "quote ends with)", where(m, (bad[0].ast if bad and bad[0].ast is not None else m.node)))
+    ctx.require("R-STATE", "render methods that render children inside container(...) and strip their trailing newlines", n_cont, 2)
